@@ -20,7 +20,7 @@ func init() {
 			"receiver field all equal the table's field; likewise the BaseOperationCost struct. R2: below the entry point only the own cost field and the table's per-byte fields of the schedule are read, and every documented per-byte field is read. " +
 			"R3 (all-or-nothing): in GasScheduleChange the store of the new schedule and the broadcast are cut by the schedule decoder succeeding (a function returning (*GasCost, error), or one filling a *GasCost handed to it); no return is reachable without the decoder call; the decoder's success is cut, at every helper level, by the decode and the zero-field check of both tables that end up in the object; every table is decoded into a zero-valued fresh object (the map decoder keeps fields the schedule does not list, so decoding over the live schedule or a copy lets a partial schedule pass); every " +
 			"field of both cost structs has an unsigned integer kind (the reflective check skips none); the broadcast calls SetNewGasConfig on every key of the container with the stored schedule. R4: every sender-side success path of a priced entry point " +
-			"passes a charge of the own cost (a GasRemaining value containing -cost, or the saturating helper applied to cost); plain GasProvided is stored only where the sender account is absent or a charge follows. R5: the lengths multiplied by StorePerByte cover every argument stored into the entry. R6: forwarded gas is moved out of the remainder after all charges (shared with C06-R3). Does NOT decide: the consumed amount as a number.",
+			"passes a charge of the own cost (a GasRemaining value containing -cost, or the saturating helper applied to cost); plain GasProvided is stored only where the sender account is absent or a charge follows. R5: the lengths multiplied by StorePerByte cover every argument stored into the entry. R6: forwarded gas is moved out of the remainder after all charges (shared with C06-R3). R7: in SaveKeyValue's pair loop every turn adds a PersistPerByte component (directly, through a helper all of whose results carry one, or through a per-pair step that always charges), and the pairs are priced in the loop that writes them. Does NOT decide: the consumed amount as a number.",
 		Trusted: []string{"T-REG (spec/registry.json): cost field and per-byte fields per protocol name", "mapstructure.Decode fills the struct from the map", "check.ForZeroUintFields semantics (its field-kind filter is matched against the struct definitions)"},
 		Rules:   []func(*Ctx){c16r1, c16r2, c16r3, c16r4, c16r5, c16r6, c16r7},
 	})
